@@ -148,9 +148,10 @@ func volumeInds() []Ind {
 			PriceDeg: []int{0}, VolDeg: []int{1}, Window: true,
 		},
 		{
-			Name: "Nvi", Inputs: []string{Close, Volume}, Outs: []string{"nvi"},
+			Name: "Nvi", Inputs: []string{Close, Volume}, FParams: []float64{1000}, Outs: []string{"nvi"},
 			Build: func(c Config) (func([]C) []C, int) {
 				a := volume.NewNvi[float64]()
+				a.Initial = c.F[0]
 				return func(in []C) []C { return o1(a.Compute(in[0], in[1])) }, a.IdlePeriod()
 			},
 			Doc: "If Volume is greater than Previous Volume: NVI = Previous NVI; otherwise NVI = Previous NVI + (((Closing - Previous Closing) / Previous Closing) * Previous NVI); initial NVI 1000",
@@ -161,7 +162,7 @@ func volumeInds() []Ind {
 					n = vo.Len()
 				}
 				out := ref.S{At: 1}
-				prev := ref.Exact(1000)
+				prev := ref.Exact(c.F[0])
 				dead := false
 				for i := 1; i < n; i++ {
 					s, sure := ref.Cmp(vo.V[i], vo.V[i-1])
